@@ -55,7 +55,8 @@ def shards(tier):
 def floors(tier):
     return {"cases": 20000, "no_checker_cases": 3000, "with_checker_cases": 10000, "unknown_name_cases": 1000,
             "nonstring_builtin_cases": 2000, "custom_return_cases": 300, "listed_raise_cases": 100,
-            "unlisted_raise_cases": 1000, "subclass_raise_cases": 100, "format_errors_seen": 2000, "nested_cases": 3000, "stateful_sequence_calls": 3000, "reregistration_cases": 60}
+            "unlisted_raise_cases": 1000, "subclass_raise_cases": 100, "format_errors_seen": 2000, "nested_cases": 3000, "stateful_sequence_calls": 3000, "reregistration_cases": 60,
+            "raise_cases_under_applicators": 1000}
 
 
 def wrappers(d, fmt):
@@ -167,15 +168,35 @@ def custom_cases(ctx, rng, d):
               AttributeError, AssertionError, UnicodeError, OverflowError, RecursionError, ArithmeticError, ImportError, NotImplementedError, MemoryError):
         plans.append(((), "unlisted", E("boom")))
         plans.append((Listed, "unlisted", E("boom")))
+    # the library's own exception types raised by a custom function (e.g. out of a validator it runs on an embedded
+    # document) are "any other exception" too when they are not listed
+    for exc in (X.ValidationError("boom"), X.SchemaError("boom"), X.RefResolutionError("boom"), X.UnknownType("t", 1, {}),
+                X.ValidationError("boom", validator="format")):
+        plans.append(((), "unlisted", exc))
+        plans.append((Listed, "unlisted", exc))
     for listed_spec, kind, exc in plans:
         def fn(instance, exc=exc):
             raise exc
         chk = jsonschema.FormatChecker(formats=())
         chk.checks("custom", raises=listed_spec)(fn)
-        for schema, inst in (({"format": "custom"}, "x"), ({"items": {"format": "custom"}}, ["x"]),
-                             ({"properties": {"a": {"format": "custom"}}}, {"a": "x"}), ({"format": "custom"}, []),
-                             ({"format": "custom"}, {"k": [1]}), ({"format": "custom"}, 7), ({"format": "custom"}, None),
-                             ({"items": {"format": "custom"}}, [{}]), ({"properties": {"a": {"format": "custom"}}}, {"a": [1]})):
+        F = {"format": "custom"}
+        under = [({"additionalProperties": F}, {"k": "x"}), ({"patternProperties": {"^k": F}}, {"k": "x"}),
+                 ({"dependencies": {"k": F}}, {"k": "x"}), ({"items": [{}, F], "additionalItems": F}, [1, "x", "y"])]
+        if d >= 4:
+            under += [({"not": F}, "x"), ({"anyOf": [F, {}]}, "x"), ({"oneOf": [{"type": "integer"}, F]}, "x"),
+                      ({"oneOf": [{}, F]}, "x"), ({"allOf": [{}, F]}, "x"), ({"not": {"not": F}}, "x")]
+        else:
+            under += [({"disallow": [F]}, "x"), ({"type": [F, "integer"]}, "x"), ({"extends": F}, "x"), ({"extends": [{}, F]}, "x")]
+        if d >= 6:
+            under += [({"contains": F}, ["x"]), ({"propertyNames": F}, {"x": 1})]
+        if d >= 7:
+            under += [({"if": F, "then": {}}, "x"), ({"if": {}, "then": F}, "x"), ({"if": False, "else": F}, "x")]
+        for schema, inst in [(F, "x"), ({"items": F}, ["x"]),
+                             ({"properties": {"a": F}}, {"a": "x"}), (F, []),
+                             (F, {"k": [1]}), (F, 7), (F, None),
+                             ({"items": F}, [{}]), ({"properties": {"a": F}}, {"a": [1]})] + under:
+            if schema is not F and (schema, inst) in under:
+                ctx.count("raise_cases_under_applicators")
             case = {"draft": d, "schema": schema, "instance": inst, "raises": repr(listed_spec), "raised": repr(exc)}
             ctx.case([d, schema, kind, repr(listed_spec)])
             ctx.count("cases")
@@ -192,18 +213,38 @@ def custom_cases(ctx, rng, d):
                             v.validate(inst)
                             errs = []
                         except X.ValidationError as e:
+                            if e is exc:
+                                raise
                             errs = [e]
                     else:
                         try:
                             jsonschema.validate(inst, schema, cls=cls, format_checker=chk)
                             errs = []
                         except X.ValidationError as e:
+                            if e is exc:
+                                raise
                             errs = [e]
                     raised = None
                 except Exception as e:
                     raised = e
                     errs = None
-                if kind in ("listed", "subclass"):
+                if kind in ("listed", "subclass") and (schema, inst) in under:
+                    # below an applicator: exactly what a function that returns False gives
+                    if raised is not None:
+                        ctx.violation("listed-exception-escaped", dict(case, entry=entry), "%s escaped" % type(raised).__name__)
+                        continue
+                    refchk = jsonschema.FormatChecker(formats=())
+                    refchk.checks("custom")(lambda instance: False)
+                    want = list(cls(schema, format_checker=refchk).iter_errors(inst))
+                    if entry == "iter_errors":
+                        sig = lambda es: sorted((str(e.validator), tuple(map(str, e.path)), tuple(map(str, e.schema_path))) for e in es)
+                        if sig(errs) != sig(want):
+                            ctx.violation("listed-exception-not-like-false", dict(case, entry=entry),
+                                          "%r, with a function that returns False: %r" % (sig(errs)[:3], sig(want)[:3]))
+                    elif bool(errs) != bool(want):
+                        ctx.violation("listed-exception-not-like-false", dict(case, entry=entry),
+                                      "invalid=%r, with a function that returns False invalid=%r" % (bool(errs), bool(want)))
+                elif kind in ("listed", "subclass"):
                     if raised is not None:
                         ctx.violation("listed-exception-escaped", dict(case, entry=entry), "%s escaped" % type(raised).__name__)
                     elif len(errs) != 1:
